@@ -3,6 +3,7 @@
   Property theorems only (helpers: Proofs/{Sync,MinIDs,WF,Preserve,Step}.lean).
 -/
 import SifVerif.Proofs.Step
+import SifVerif.Proofs.RangesStep
 namespace Sif.C08
 
 variable (sha : Bytes → Bytes) (ph : Bytes → Option Bytes)
@@ -42,6 +43,44 @@ theorem C08_history (s : Img) (ops : List (Op × Int)) (W : WF s)
     have := hR ops.length; simpa using this
   obtain ⟨s', h1, h2, _, _⟩ := C08_sync _ W' R'
   exact ⟨s', h1, h2⟩
+
+/-- the same with hypotheses on what comes in from outside only: the start satisfies the
+    invariants (a created or loaded image does) and every operation's inputs are representable in
+    their Go types (`Op.InRange`); `Ranges` of every state reached is then a theorem
+    (`Ranges_history`), not an assumption -/
+theorem C08_history_inputs (s : Img) (ops : List (Op × Int)) (W : WF s) (R : Ranges s) (E : EndsOK s)
+    (hin : ∀ k op now, ops[k]? = some (op, now) → Op.InRange (runOps sha ph s (ops.take k)) op now)
+    (hio : ∀ k op now, ops[k]? = some (op, now) →
+      (step sha ph (runOps sha ph s (ops.take k)) op now).2 ≠ .err .io) :
+    ∃ s', loadContainer (runOps sha ph s ops).st = .ok s' ∧ view s' = view (runOps sha ph s ops) :=
+  C08_history sha ph s ops W (Ranges_history sha ph s ops W R E hin hio) hio
+
+/-- … and at every intermediate point of such a history, not only at its end -/
+theorem C08_history_everywhere (s : Img) (ops : List (Op × Int)) (W : WF s) (R : Ranges s) (E : EndsOK s)
+    (hin : ∀ k op now, ops[k]? = some (op, now) → Op.InRange (runOps sha ph s (ops.take k)) op now)
+    (hio : ∀ k op now, ops[k]? = some (op, now) →
+      (step sha ph (runOps sha ph s (ops.take k)) op now).2 ≠ .err .io) (k : Nat) :
+    ∃ s', loadContainer (runOps sha ph s (ops.take k)).st = .ok s' ∧
+      view s' = view (runOps sha ph s (ops.take k)) := by
+  apply C08_history_inputs sha ph s (ops.take k) W R E
+  · intro j op now hj
+    have hj' : ops[j]? = some (op, now) ∧ j < k := by
+      rw [List.getElem?_take] at hj
+      split at hj
+      · exact ⟨hj, by assumption⟩
+      · cases hj
+    have : (ops.take k).take j = ops.take j := by
+      rw [List.take_take]; congr 1; omega
+    rw [this]; exact hin j op now hj'.1
+  · intro j op now hj
+    have hj' : ops[j]? = some (op, now) ∧ j < k := by
+      rw [List.getElem?_take] at hj
+      split at hj
+      · exact ⟨hj, by assumption⟩
+      · cases hj
+    have : (ops.take k).take j = ops.take j := by
+      rw [List.take_take]; congr 1; omega
+    rw [this]; exact hio j op now hj'.1
 
 /-- a reload step itself changes nothing observable -/
 theorem C08_reload_noop (s : Img) (W : WF s) (R : Ranges s) (now : Int) :
